@@ -532,5 +532,270 @@ for ln, impl, mo, (cid, files, ops, out) in zip(lines, impls, models, meta):
         chk.count('hist_backup_shaped_destination')
     chk.case(cid, ln, impl, mo, errs, pre or inner)
 
+# ----------------------------------------------------------------------------
+# C. the CLI gate
+# ----------------------------------------------------------------------------
+import hashlib as _hl
+from vermouth.log_helpers import CountingHandler, ignore_warnings_and_count
+
+AUDIT = {'on': False, 'events': [], 'finalising': False}
+
+
+def _audit(ev, args):
+    if ev != 'open' or not AUDIT['on']:
+        return
+    try:
+        path, mode, flags = args
+    except Exception:  # noqa
+        return
+    if not isinstance(path, (str, bytes, os.PathLike)):
+        return
+    w = False
+    if isinstance(mode, str):
+        w = any(c in mode for c in 'wax+')
+    elif isinstance(flags, int):
+        w = bool(flags & (os.O_WRONLY | os.O_RDWR | os.O_CREAT | os.O_APPEND | os.O_TRUNC))
+    if w:
+        AUDIT['events'].append((os.fsdecode(path), mode if isinstance(mode, str) else 'flags=%o' % (flags or 0),
+                                AUDIT['finalising']))
+
+
+sys.addaudithook(_audit)
+M2PATH = os.path.join(REPO, 'bin', 'martinize2')
+M2 = runpy.run_path(M2PATH, run_name='verif_m2')
+logging.getLogger('vermouth').handlers[:] = []
+T0 = os.path.join(REPO, 'vermouth', 'tests', 'data', 'integration_tests', 'tier-0')
+
+
+def sha(b):
+    return _hl.sha1(b).hexdigest()[:16]
+
+
+def run_cli(argv, pre):
+    """Run bin/martinize2 in-process in a fresh directory holding the files `pre` (name -> bytes)."""
+    d = tempfile.mkdtemp(dir=SCRATCH, prefix='run_')
+    for n, c in pre.items():
+        with open(os.path.join(d, n), 'wb') as f:
+            f.write(c)
+    W = DeferredFileWriter()
+    W.close()
+    rec = {'opens': [], 'gate': None}
+    orig_open, orig_write = DeferredFileWriter.open, DeferredFileWriter.write
+
+    def pending_snapshot():
+        return [(os.path.relpath(str(fp), d), mode_kind(m), sha(open(tp, 'rb').read())) for tp, fp, m in W.open_files]
+
+    def open_rec(self, filename, mode='r', *a, **k):
+        if any(c in mode for c in 'wax+'):
+            rec['opens'].append((os.path.relpath(os.path.abspath(str(filename)), d), mode))
+        return orig_open(self, filename, mode, *a, **k)
+
+    def write_rec(self):
+        rec['gate'] = pending_snapshot()
+        AUDIT['finalising'] = True
+        return orig_write(self)
+
+    lg = logging.getLogger('vermouth')
+    lg.handlers[:] = []
+    old = (sys.argv, sys.stderr, sys.stdout, os.getcwd())
+    sys.argv, sys.stderr, sys.stdout = ['martinize2'] + argv, io.StringIO(), io.StringIO()
+    os.chdir(d)
+    DeferredFileWriter.open, DeferredFileWriter.write = open_rec, write_rec
+    AUDIT['events'], AUDIT['finalising'], AUDIT['on'] = [], False, True
+    code = 0
+    try:
+        runpy.run_path(M2PATH, run_name='__main__')
+    except SystemExit as e:
+        code = e.code if isinstance(e.code, int) else (0 if e.code is None else 1)
+    except BaseException as e:  # noqa
+        code = 'exception:%s' % type(e).__name__
+    finally:
+        AUDIT['on'] = False
+        DeferredFileWriter.open, DeferredFileWriter.write = orig_open, orig_write
+        log_err = sys.stderr.getvalue()
+        sys.argv, sys.stderr, sys.stdout = old[:3]
+        os.chdir(old[3])
+    if rec['gate'] is None:
+        rec['gate'] = pending_snapshot()
+        finalised = False
+    else:
+        finalised = True
+    counters = [h for h in lg.handlers if isinstance(h, CountingHandler)]
+    entries = [[lvl, typ, cnt] for h in counters[:1] for lvl, dd in h.counts.items() for typ, cnt in dd.items()]
+    lg.handlers[:] = []
+    W.close()
+    after = snapshot_dir(d)
+    events = [(os.path.realpath(p) if os.path.isabs(p) else os.path.realpath(os.path.join(d, p)), m, fin)
+              for p, m, fin in AUDIT['events']]
+    inside = [(os.path.relpath(p, os.path.realpath(d)), m, fin) for p, m, fin in events
+              if p.startswith(os.path.realpath(d) + os.sep)]
+    shutil.rmtree(d, ignore_errors=True)
+    return {'code': code, 'after': after, 'entries': entries, 'opens': rec['opens'], 'gate': rec['gate'],
+            'finalised': finalised, 'inside': inside, 'counter': counters[0] if counters else None, 'log': log_err}
+
+
+def leftover_oracle(entries, specs, level=logging.WARNING):
+    """independent closed form of the leftover count (same statement as the C08 oracle)"""
+    above = sum(c for l, t, c in entries if l > level)
+    warn = {}
+    for l, t, c in entries:
+        if l == level:
+            warn[t] = warn.get(t, 0) + c
+    flat = [sp for g in specs for sp in g]
+    named = {t for t, c in flat if c is None}
+    limits = {}
+    for t, c in flat:
+        if c is not None:
+            limits[t] = max(limits.get(t, 0), c, 0)
+    blanket = limits.pop(None, 0)
+    total, rest = above, 0
+    for t, c in warn.items():
+        if t in limits:
+            total += max(0, c - limits[t])
+        elif t not in named:
+            rest += c
+    return total + max(0, rest - blanket)
+
+
+def cli_case(cid, prot, opts, maxwarn_groups, pre_names, verbose=False, write_dump=None):
+    aa = os.path.join(T0, prot, 'aa.pdb')
+    argv = ['-f', aa, '-x', 'cg.pdb', '-o', 'topol.top'] + opts
+    for g in maxwarn_groups:
+        argv += ['-maxwarn'] + g
+    if verbose:
+        argv.append('-v')
+    if write_dump:
+        argv += ['-write-graph', write_dump]
+    pre = {n: ('old %s\n' % n).encode() * 3 for n in pre_names}
+    r = run_cli(argv, pre)
+    specs = [[M2['maxwarn'](s) for s in g] for g in maxwarn_groups]
+    impl_left = ignore_warnings_and_count(r['counter'], specs) if r['counter'] is not None else None
+    # the error record logged by the gate itself is counted after the decision; remove it for the model input
+    entries = r['entries']
+    gate_err = 1 if (r['code'] == 2 and not r['finalised']) else 0
+    ent_gate = []
+    for l, t, c in entries:
+        if l == logging.ERROR and t == 'general' and gate_err:
+            c -= 1
+            gate_err = 0
+        if c:
+            ent_gate.append([l, t, c])
+    impl_left_gate = leftover_oracle(ent_gate, specs)
+    # `deferred_open` is a bound method created at import time, so the individual calls cannot be
+    # intercepted without touching every writer module; the history given to the model is reconstructed
+    # from the pending table observed at the gate (one open per entry, stored mode, final contents)
+    opens = [[parse_name(n), k, h] for n, k, h in r['gate']]
+    files = [[parse_name(n), sha(c)] for n, c in pre.items()]
+    ln = line('cli', logging.WARNING, ent_gate, [[[t, c] for t, c in g] for g in specs], files, opens)
+    allowed_extra = set()
+    if write_dump:
+        allowed_extra.add(write_dump)
+    after_user = {n: sha(c) for n, c in r['after'].items() if n not in allowed_extra and not re.fullmatch(r'dssp_in_.*\.pdb', n)}
+    impl = enc_list([enc(r['code']) if isinstance(r['code'], int) else enc(str(r['code'])), enc(impl_left_gate),
+                     enc([[n, after_user[n]] for n in sorted(after_user)])])
+    # ---- oracle
+    errs, finding = [], None
+    new = sorted(set(r['after']) - set(pre))
+    changed = sorted(n for n in pre if r['after'].get(n) != pre[n])
+    if isinstance(r['code'], str):
+        errs.append('martinize2 raised %s' % r['code'])
+    if impl_left_gate:
+        if r['code'] == 0:
+            errs.append('%d warnings left after -maxwarn but exit code 0' % impl_left_gate)
+        if r['finalised']:
+            errs.append('%d warnings left after -maxwarn but DeferredFileWriter.write() was called' % impl_left_gate)
+        unexpected = [n for n in new if n not in allowed_extra]
+        if unexpected or changed:
+            if (verbose and r['code'] == 2 and not changed and unexpected
+                    and all(re.fullmatch(r'dssp_in_.*\.pdb', n) for n in unexpected)):
+                finding = 'F-C07-2'
+            errs.append('run with %d unwaived warnings (exit %s) left new files %s / changed files %s'
+                        % (impl_left_gate, r['code'], unexpected, changed))
+    else:
+        if r['code'] != 0:
+            errs.append('no warnings left after -maxwarn but exit code %s' % (r['code'],))
+        for n, k, h in r['gate']:
+            if n not in r['after'] or sha(r['after'][n]) != h:
+                errs.append('output %r does not hold what was written for it' % n)
+            if n in pre:
+                bk = first_free_backup(n, pre)
+                if r['after'].get(bk) != pre[n]:
+                    errs.append('pre-existing %r not kept byte for byte at %r' % (n, bk))
+        dests = {n for n, k, h in r['gate']}
+        for n in pre:
+            if n not in dests and r['after'].get(n) != pre[n]:
+                errs.append('pre-existing unrelated file %r changed' % n)
+        if not r['gate']:
+            errs.append('successful run wrote nothing through the deferred writer')
+    for pth, m, fin in r['inside']:
+        if fin:
+            continue
+        if re.fullmatch(r'dssp_in_.*\.pdb', pth) or pth in allowed_extra:
+            continue
+        errs.append('file %r in the run directory opened for writing (%s) before the gate: a writer bypasses the '
+                    'deferred writer' % (pth, m))
+    nwarn = sum(c for l, t, c in ent_gate if l >= logging.WARNING)
+    chk.count('cli_exit=%s' % (r['code'],))
+    chk.count('cli_warnings=%d' % min(nwarn, 3))
+    chk.count('cli_leftover=%d' % min(impl_left_gate, 3))
+    chk.count('cli_deferred_outputs=%d' % len(r['gate']))
+    if pre:
+        chk.count('cli_preexisting_outputs')
+    return cid, ln, impl, errs, nwarn >= 1, finding
+
+
+PROTS = ['mini-protein1_betasheet', 'dipro-termini', 'mini-protein2_helix', 'mini-protein3_trp-cage']
+WARN_OPTS = {
+    'none': (['-ff', 'martini22', '-ss', 'C', '-noscfix'], 0),
+    'scfix': (['-ff', 'martini22', '-ss', 'C', '-scfix'], 2),            # general + missing-feature
+    'mutate': (['-ff', 'martini22', '-ss', 'C', '-noscfix', '-mutate', 'A-GLY999:ALA'], 1),   # general
+    'modify': (['-ff', 'martini3001', '-ss', 'C', '-noscfix', '-modify', 'XXX99:N-ter'], 1),
+    'both': (['-ff', 'martini22', '-ss', 'C', '-scfix', '-mutate', 'A-GLY999:ALA'], 3),
+}
+cli_plan = [
+    ('none', [], ['cg.pdb', '#cg.pdb.1#', 'molecule_0.itp', 'other.txt'], {}),
+    ('scfix', [], ['cg.pdb', 'topol.top'], {}),
+    ('scfix', [['1']], [], {}),                                    # leftover exactly 1
+    ('scfix', [['2']], ['topol.top', '#topol.top.1#', '#topol.top.2#'], {}),
+    ('scfix', [['general'], ['missing-feature:1']], [], {}),
+    ('mutate', [['missing-feature']], ['cg.pdb'], {}),           # waiver of another type: leftover 1
+    ('scfix', [], [], {'write_dump': 'graph_dump.pdb'}),
+]
+rng = chk.rng('cli')
+if chk.thorough:
+    for i in range(14):
+        kind = rng.choice(list(WARN_OPTS))
+        nw = WARN_OPTS[kind][1]
+        mw = rng.choice([[], [[str(rng.randint(0, 3))]], [['general']], [['general:%d' % rng.randint(0, 2)]],
+                         [['missing-feature'], [str(rng.randint(0, 2))]], [['general', 'missing-feature']]])
+        pre = rng.sample(['cg.pdb', 'topol.top', 'molecule_0.itp', '#cg.pdb.1#', '#topol.top.1#', 'x.dat'], rng.randint(0, 4))
+        cli_plan.append((kind, mw, pre, {'prot': rng.choice(PROTS)}))
+else:
+    # one seeded extra run so that different seeds exercise different combinations
+    kind = rng.choice(['scfix', 'mutate', 'both'])
+    cli_plan.append((kind, rng.choice([[[str(rng.randint(0, 3))]], [['general:%d' % rng.randint(0, 2)]], [['general']]]),
+                     rng.sample(['cg.pdb', 'topol.top', 'molecule_0.itp', '#cg.pdb.1#'], 2), {'prot': rng.choice(PROTS)}))
+try:
+    import mdtraj  # noqa
+    cli_plan.append(('dssp-v', [], ['cg.pdb'], {}))
+except Exception:  # noqa
+    chk.notes.append('mdtraj not importable: the -dssp -v combination (F-C07-2) was not run')
+
+cli_rows = []
+for i, (kind, mw, pre, kw) in enumerate(cli_plan):
+    kw = dict(kw)
+    prot = kw.pop('prot', PROTS[0])
+    if kind == 'dssp-v':
+        row = cli_case('cli-%d-dssp-v' % i, prot, ['-ff', 'martini22', '-dssp', '-scfix'], mw, pre, verbose=True)
+    else:
+        row = cli_case('cli-%d-%s' % (i, kind), prot, WARN_OPTS[kind][0], mw, pre, **kw)
+    cli_rows.append(row)
+cli_models = chk.drv.ask([r[1] for r in cli_rows]) if chk.lean_ok else [None] * len(cli_rows)
+for (cid, ln, impl, errs, nontriv, finding), mo in zip(cli_rows, cli_models):
+    if finding:
+        # the model has no DSSP dump; the known finding is judged by the oracle only
+        mo = None
+    chk.case(cid, ln, impl, mo, errs, nontriv, finding=finding)
+
 shutil.rmtree(SCRATCH, ignore_errors=True)
 chk.finish()
